@@ -220,6 +220,17 @@ def read_cp2k_input(filename: Union[str, Path]) -> List[SectionNode]:
     return nodes
 
 
+def _format_data(data: Dict[str, Any]) -> List[str]:
+    """Turn a dict of keywords into the lines of a CP2K section."""
+    lines = []
+    for key, value in data.items():
+        if value is None:
+            lines.append(str(key))
+        else:
+            lines.append(f"{key} {value}")
+    return lines
+
+
 def _add_node(
     target: str,
     settings: List[str],
@@ -228,6 +239,10 @@ def _add_node(
     node_ref: Dict[str, SectionNode],
 ) -> None:
     """Just add a new node."""
+    if isinstance(data, dict):
+        # a new section gets "KEY value" lines, not only the keys
+        data = _format_data(data)  # type: ignore[assignment]
+    settings = list(settings) if settings else []
     # check if this is a root node:
     root = target.find("->") == -1
     if root:
@@ -282,7 +297,10 @@ def update_node(
         for line in node.data:
             key = line.split()[0]
             if key in data:
-                new_data.append(f"{key} {data[key]}")
+                if data[key] is None:
+                    new_data.append(str(key))
+                else:
+                    new_data.append(f"{key} {data[key]}")
                 done.add(key)
             else:
                 new_data.append(line)
@@ -300,7 +318,9 @@ def update_node(
         if replace:
             node.settings = list(settings)
         else:
-            node.settings += settings
+            # only add what is not there yet (applying an update twice
+            # must not repeat the section parameters)
+            node.settings += [i for i in settings if i not in node.settings]
     return node
 
 
@@ -362,7 +382,8 @@ def update_cp2k_input(
     if update is not None:
         for target in update:
             value = update[target]
-            settings = value.get("settings", [])
+            # no "settings" requested: leave the section parameters alone
+            settings = value.get("settings", None)
             replace = value.get("replace", False)
             data = value.get("data", {})
             update_node(
